@@ -666,7 +666,9 @@ func (e *env) goGitOp(sc *scenario, cl cell, dir string, budget time.Duration) (
 
 // ---------- oracle ----------
 
-type viol struct{ clause, what string }
+type viol struct{ clause, what, qual string }
+
+func v2(clause, what string) viol { return viol{clause: clause, what: what} }
 
 // check applies the ref / tag / shallow / connectivity clauses to a successful exchange.
 func (e *env) check(sc *scenario, cl cell, res result, isReference bool) []viol {
@@ -676,7 +678,22 @@ func (e *env) check(sc *scenario, cl cell, res result, isReference bool) []viol 
 		if fr.Timeout {
 			e.c.Inconclusive("fsck timed out on %s", res.dir)
 		} else {
-			vs = append(vs, viol{"fsck", "git fsck --connectivity-only fails on the client: " + strings.TrimSpace(string(fr.Err)) + strings.TrimSpace(string(fr.Out))})
+			txt := strings.TrimSpace(string(fr.Err)) + strings.TrimSpace(string(fr.Out))
+			// what is missing, and (for fetches) whether the prior state was shallow: different defects
+			qual := "missing-tree-or-blob"
+			if strings.Contains(txt, "missing commit") {
+				qual = "missing-commit"
+			} else if !strings.Contains(txt, "missing ") {
+				qual = "other"
+			}
+			if opsFetch[sc.Op] {
+				if lab.Shallow(lab.GitDir(sc.prior)) == "" {
+					qual += ":prior-complete"
+				} else {
+					qual += ":prior-shallow"
+				}
+			}
+			vs = append(vs, viol{"fsck", "git fsck --connectivity-only fails on the client: " + txt, qual})
 		}
 	}
 	server := sc.refs2
@@ -717,14 +734,14 @@ func (e *env) check(sc *scenario, cl cell, res result, isReference bool) []viol 
 	if sc.Op == "clone-mirror" {
 		for n, v := range got {
 			if w, ok := wantRemote[n]; !ok {
-				vs = append(vs, viol{"refs-extra", fmt.Sprintf("mirror has %s=%s which the server does not have", n, v)})
+				vs = append(vs, v2("refs-extra", fmt.Sprintf("mirror has %s=%s which the server does not have", n, v)))
 			} else if w != v {
-				vs = append(vs, viol{"refs-value", fmt.Sprintf("%s = %s, server has %s", n, v, w)})
+				vs = append(vs, v2("refs-value", fmt.Sprintf("%s = %s, server has %s", n, v, w)))
 			}
 		}
 		for n, w := range wantRemote {
 			if _, ok := got[n]; !ok {
-				vs = append(vs, viol{"refs-missing", fmt.Sprintf("mirror lacks %s (%s)", n, w)})
+				vs = append(vs, v2("refs-missing", fmt.Sprintf("mirror lacks %s (%s)", n, w)))
 			}
 		}
 	} else {
@@ -733,14 +750,14 @@ func (e *env) check(sc *scenario, cl cell, res result, isReference bool) []viol 
 				continue
 			}
 			if w, ok := wantRemote[n]; !ok {
-				vs = append(vs, viol{"refs-extra", fmt.Sprintf("client has %s=%s, not expected from the server's heads %v", n, v, heads(server))})
+				vs = append(vs, v2("refs-extra", fmt.Sprintf("client has %s=%s, not expected from the server's heads %v", n, v, heads(server))))
 			} else if w != v {
-				vs = append(vs, viol{"refs-value", fmt.Sprintf("%s = %s, expected %s", n, v, w)})
+				vs = append(vs, v2("refs-value", fmt.Sprintf("%s = %s, expected %s", n, v, w)))
 			}
 		}
 		for n, w := range wantRemote {
 			if _, ok := got[n]; !ok {
-				vs = append(vs, viol{"refs-missing", fmt.Sprintf("client lacks %s (expected %s)", n, w)})
+				vs = append(vs, v2("refs-missing", fmt.Sprintf("client lacks %s (expected %s)", n, w)))
 			}
 		}
 		// tags
@@ -753,11 +770,11 @@ func (e *env) check(sc *scenario, cl cell, res result, isReference bool) []viol 
 		for n, v := range gotTags {
 			if w, ok := server[n]; ok && w != v {
 				if pv, had := prior[n]; !(had && pv == v) { // an old local tag is never overwritten without force
-					vs = append(vs, viol{"tag-value", fmt.Sprintf("%s = %s, server has %s", n, v, w)})
+					vs = append(vs, v2("tag-value", fmt.Sprintf("%s = %s, server has %s", n, v, w)))
 				}
 			} else if !ok {
 				if _, had := prior[n]; !had {
-					vs = append(vs, viol{"tag-extra", fmt.Sprintf("client has %s which the server does not have", n)})
+					vs = append(vs, v2("tag-extra", fmt.Sprintf("client has %s which the server does not have", n)))
 				}
 			}
 		}
@@ -765,13 +782,13 @@ func (e *env) check(sc *scenario, cl cell, res result, isReference bool) []viol 
 		case "none":
 			for n := range gotTags {
 				if _, had := prior[n]; !had {
-					vs = append(vs, viol{"tag-extra", fmt.Sprintf("tags disabled but client got %s", n)})
+					vs = append(vs, v2("tag-extra", fmt.Sprintf("tags disabled but client got %s", n)))
 				}
 			}
 		case "all":
 			for n := range tagsOf(server) {
 				if _, ok := gotTags[n]; !ok {
-					vs = append(vs, viol{"tag-missing", fmt.Sprintf("all tags requested but client lacks %s", n)})
+					vs = append(vs, v2("tag-missing", fmt.Sprintf("all tags requested but client lacks %s", n)))
 				}
 			}
 		default:
@@ -806,7 +823,7 @@ func (e *env) check(sc *scenario, cl cell, res result, isReference bool) []viol 
 		want := lab.Shallow(lab.GitDir(sc.refDir))
 		e.c.Count("shallow_compared", 1)
 		if want != res.shallow {
-			vs = append(vs, viol{"shallow", fmt.Sprintf("shallow file differs from git's for the same request: got [%s] want [%s]", strings.ReplaceAll(res.shallow, "\n", " "), strings.ReplaceAll(want, "\n", " "))})
+			vs = append(vs, v2("shallow", fmt.Sprintf("shallow file differs from git's for the same request: got [%s] want [%s]", strings.ReplaceAll(res.shallow, "\n", " "), strings.ReplaceAll(want, "\n", " "))))
 		}
 	}
 	return vs
@@ -873,6 +890,9 @@ func (e *env) judge(sc *scenario, cl cell, res result) {
 	c.Seen("op_x_pair_ok", sc.Op+"|"+cl.pair()+"/"+cl.Server.Trans)
 	for _, v := range e.check(sc, cl, res, false) {
 		key := v.clause + ":" + sc.Op + ":" + cl.pair()
+		if v.qual != "" {
+			key += ":" + v.qual
+		}
 		c.Fail(key, fmt.Sprintf("%s on %s (scenario %d, %d commits, %s): %s", sc.Op, cl.name(), sc.Idx, sc.N, sc.Class, v.what), replay)
 	}
 }
